@@ -191,7 +191,7 @@ def _run_copy_cases(jobs: list[tuple]) -> list[tuple[list[dict], int]]:
 
 def search_copies(ck: Ck) -> None:
     from harness import c09_util as U
-    n = _budget(ck, 1500, 40000)
+    n = _budget(ck, 1300, 40000)
     cases: list[tuple[str, int, str]] = []
     if CORPUS.exists():
         for p in sorted(CORPUS.glob('*.json')):
@@ -317,7 +317,7 @@ def cert_cases(ck: Ck) -> None:
     """Export original+copy object graphs of real objects and let the kernel check the separation certificate
     (the premise of c09_export_ok_independent)."""
     from harness import c09_util as U
-    n = _budget(ck, 88, 550)
+    n = _budget(ck, 55, 550)
     exprs, meta = [], []
     kinds = itertools.cycle(U.KINDS)
     tries = 0
